@@ -91,7 +91,7 @@ func (lc *LocalClient) AddVersion(v Version, deps []RequirementVersion) {
 	for i, w := range versions {
 		if w.VersionKey == v.VersionKey {
 			existed = true
-			versions[i] = w
+			versions[i] = v
 		}
 	}
 	// Otherwise insert and sort.
